@@ -863,7 +863,7 @@ func (c *e2Case) e2Outs(t *rapid.T, pos string, ty mrogen.Ty, want, got any, nes
 	}
 	if el, ok := ty.Elem(); ok {
 		if ty.IsArray() {
-			w, _ := refsem.Concretize(want).([]any)
+			w, _ := want.([]any) // (members may be soft nulls: not concretized here)
 			g, _ := got.([]any)
 			if len(w) != len(g) {
 				fail(t, "C13", "outs-record-differs", "%s: %d elements, expected %d\n%s", pos, len(g), len(w), c.describe())
@@ -873,7 +873,7 @@ func (c *e2Case) e2Outs(t *rapid.T, pos string, ty mrogen.Ty, want, got any, nes
 			}
 			return
 		}
-		w, _ := refsem.Concretize(want).(*jsonx.Obj)
+		w, _ := want.(*jsonx.Obj)
 		g, _ := got.(*jsonx.Obj)
 		if (w == nil) != (g == nil) || (w != nil && len(w.Keys) != len(g.Keys)) {
 			fail(t, "C13", "outs-record-differs", "%s: %s, expected %s\n%s", pos, jsonx.Marshal(got), jsonx.Marshal(refsem.Concretize(want)), c.describe())
@@ -955,7 +955,7 @@ func (c *e2Case) e2Outs(t *rapid.T, pos string, ty mrogen.Ty, want, got any, nes
 		}
 		return
 	}
-	w, _ := refsem.Concretize(want).(*jsonx.Obj)
+	w, _ := want.(*jsonx.Obj)
 	g, _ := got.(*jsonx.Obj)
 	if (w == nil) != (g == nil) {
 		fail(t, "C13", "outs-record-differs", "%s: %s, expected %s\n%s", pos, jsonx.Marshal(got), jsonx.Marshal(refsem.Concretize(want)), c.describe())
